@@ -18,7 +18,7 @@ EXPLANATION = (
     'context down) and the context\'s sheet is derived from that address; (C03.4) the name->address map '
     'handed to the parser holds address strings; (C03.5) range registry keys are written and read with '
     'the same qualification, a missing cell evaluates to BLANK; (C03.6) ranges are expanded row-major from '
-    'sorted rows and columns.')
+    'sorted rows and columns; (C03.7) resolve_address and resolve_ranges both unquote the sheet part with resolve_sheet.')
 NOT_DECIDED = 'range arithmetic of openpyxl (range_boundaries), values of the cells'
 TRUSTED = ['openpyxl.utils.cell.range_boundaries / get_column_letter behave as documented']
 
@@ -404,6 +404,38 @@ def rule_6(ctx):
     ctx.floor(6, 'row-major facts')
 
 
+def rule_7(ctx):
+    """Siblings resolve_address / resolve_ranges: the sheet part of a reference text is unquoted by resolve_sheet."""
+    um = ctx.mod('utils')
+    for name in ('resolve_address', 'resolve_ranges'):
+        fn = um.func(name)
+        splits = [a for a in walk_local(fn) if isinstance(a, ast.Assign) and isinstance(a.value, ast.Call)
+                  and isinstance(a.value.func, ast.Attribute) and a.value.func.attr in ('split', 'partition', 'rpartition')
+                  and a.value.args and isinstance(a.value.args[0], ast.Constant) and a.value.args[0].value == '!'
+                  and isinstance(a.targets[0], ast.Tuple)]
+        if not splits:
+            raise AnchorMissing(f'{name}: split of the reference text at "!"')
+        sheet_raw = splits[0].targets[0].elts[0].id
+        deps = flow.Deps(fn)
+        # every use of the raw sheet text must be the argument of resolve_sheet
+        later = [flow.pos(a) for a in walk_local(fn) if isinstance(a, ast.Assign) and a is not splits[0]
+                 and any(isinstance(t, ast.Name) and t.id == sheet_raw for t in a.targets) and flow.pos(a) > flow.pos(splits[0])]
+        horizon = min(later) if later else (10 ** 9, 0)
+        uses = [n for n in walk_local(fn) if isinstance(n, ast.Name) and n.id == sheet_raw and isinstance(n.ctx, ast.Load)
+                and flow.end_pos(splits[0]) <= flow.pos(n) < horizon]
+        ok = bool(uses) and all(isinstance(u._parent, ast.Call) and ctx.res.resolve(u._parent.func, um) == 'pkg:utils:resolve_sheet'
+                                for u in uses)
+        ctx.expect(ok, fn, f'{name}: sheet text goes through resolve_sheet',
+                   f'{name} uses the sheet part of the reference text without unquoting it with resolve_sheet: a reference such as '
+                   "'My Sheet'!$A$1:$B$2 (a defined name on a sheet whose title needs quotes) yields addresses with the quotes, "
+                   'which are not keys of the cells map')
+    rs = um.func('resolve_sheet')
+    rets = value_returns(rs)
+    ok = any('quoted' in ast.unparse(r.value) and 'notquoted' in ast.unparse(r.value) for r in rets)
+    ctx.expect(ok, rs, 'resolve_sheet returns the quoted or the unquoted group', 'resolve_sheet no longer returns the bare sheet title')
+    ctx.floor(3, 'sheet unquoting siblings')
+
+
 RULES = [
     ('C03.1', '$ is stripped before a cell lookup; the remover\'s decision table', rule_1),
     ('C03.2', 'range materialisation is total', rule_2),
@@ -411,4 +443,5 @@ RULES = [
     ('C03.4', 'defined names map to address strings', rule_4),
     ('C03.5', 'range registry keys agree; missing cells are blank', rule_5),
     ('C03.6', 'row-major expansion with inclusive bounds', rule_6),
+    ('C03.7', 'sheet names are unquoted by resolve_sheet in both address resolvers', rule_7),
 ]
